@@ -2859,6 +2859,11 @@ func (s *ImmuStore) ExportTx(txID uint64, allowPrecommitted bool, skipIntegrityC
 		// TODO: improve value reading implementation, get rid of _valBs
 		s._valBsMux.Lock()
 
+		if e.vLen < 0 || e.vLen > s.maxValueLen {
+			s._valBsMux.Unlock()
+			return nil, fmt.Errorf("%w: value length exceeds the maximum", ErrCorruptedTxData)
+		}
+
 		var valBuf []byte
 		if e.vLen > len(s._valBs) {
 			valBuf = make([]byte, e.vLen)
@@ -3365,6 +3370,10 @@ func (s *ImmuStore) ReadValue(entry *TxEntry) ([]byte, error) {
 		// But current changes in ExportTx with truncated transactions are not providing the value length
 		// for truncated transactions, making it impossible to differentiate an empty value with a truncated one
 		return nil, nil
+	}
+
+	if entry.vLen < 0 || entry.vLen > s.maxValueLen {
+		return nil, fmt.Errorf("%w: value length exceeds the maximum", ErrCorruptedTxData)
 	}
 
 	b := make([]byte, entry.vLen)
